@@ -109,7 +109,14 @@ def run_harness(name, args=(), input=None, timeout=1800, env=None):
     e = dict(HENV)
     if env:
         e.update(env)
-    return run([exe] + list(args), input=input, timeout=timeout, env=e)
+    p = None
+    for _attempt in range(3):
+        p = run([exe] + list(args), input=input, timeout=timeout, env=e)
+        # SIGTERM comes from outside (another job's cleanup), never from the harness or a sanitizer: run again
+        if p.returncode != -15:
+            break
+        log("harness %s was terminated by SIGTERM from outside; re-running" % name)
+    return p
 
 # ---------------------------------------------------------------- lean
 def write_if_changed(path, text):
